@@ -17,14 +17,19 @@
                                                         (`*_truncation_iff`, `*_reported_length`)
   * the caller reads the text itself when it fits and its first n−1 characters when it does not
     (`*_verdict`: the specification's `Verdict`, which also restates the three facts above)
-  * the printed text, given to the parser model of C01 (`create`), yields the same host sequence
-    (`ranged_roundtrip`, `deranged_roundtrip`; domain `RoundDom`, see there)
+  * the printed text, given to the parser model of C01 (`create cfg`, for EVERY variant `cfg` of the
+    parser), yields the same host sequence (`ranged_roundtrip`, `deranged_roundtrip`; domain
+    `RoundDom cfg`: no limit on name lengths once D18/D23 are repaired, `RoundDom.of_repaired`)
+  * `list_push_hostlist`: the unchanged retry loop diverges iff the text needs ≥ 4095 bytes
+    (`listPushHostlist_diverges_iff`, D2/F14-XLOOP); the repaired loop always ends and hands on the
+    whole text (`listPushHostlist_repaired_terminates`, `_repaired_text`)
   The unchanged `hostlist_deranged_string` (`ret > m`) violates the first, third and fourth point:
   `deranged_writes_in_bounds_false`, `deranged_truncation_iff_false` (kernel-decided witness D14).
   What is not proved: anything about the compiled C code (tied to the model by the
   correspondence of checks/c14.py); lengths are mathematical integers (the C code uses `int`).
 -/
 import PdshVerif.Hostlist.PrintRound2
+import PdshVerif.Hostlist.PrintCallers
 
 namespace PdshVerif.C14
 open PdshVerif.Hostlist PdshVerif.Hostlist.Print
@@ -178,28 +183,38 @@ theorem deranged_verdict (h : HL) (hg : GoodRecords h) (hz : NoNul h.ranges.toLi
   exact verdict_of_wrote hn hw h1 h2 (derangedT_no_nul hz)
 
 /-! ### lossless when it fits: the text reads back as the same host sequence -/
-/-- domain of the round trip: every record `RecOK` (well formed; name text free of `[ ] ,` blank tab
-    - `NoMeta` -; single-host names non-empty; names shorter than 1023 bytes, the parser's word buffer
-    (D18); at most 16384 hosts per range record) and at most 10240 ranges per bracket (the parser's
-    limits: a list beyond them is finding F14-BIGRANGE) -/
-structure RoundDom (h : HL) : Prop where
-  recs : ∀ r ∈ h.ranges.toList, RecOK r
+/-- domain of the round trip, for the variant `cfg` of the parser (Basic.lean: which of its recorded
+    defects are repaired): every record `RecOK cfg` (well formed; name text free of `[ ] ,` blank tab
+    - `NoMeta` -; single-host names non-empty; at most 16384 hosts per range record; names shorter
+    than 1023 bytes ONLY where the parser still has D18 / D23) and at most 10240 ranges per bracket
+    (the parser's limits: a list beyond them is finding F14-BIGRANGE) -/
+structure RoundDom (cfg : Cfg) (h : HL) : Prop where
+  recs : ∀ r ∈ h.ranges.toList, RecOK cfg r
   groups : ∀ g ∈ PrintSpec.groups h.ranges.toList, g.length ≤ Spec.RANGES_LIMIT
 
-theorem RoundDom.good {h : HL} (hd : RoundDom h) : GoodRecords h := fun r hr => (hd.recs r hr).good
-theorem RoundDom.noEmpty {h : HL} (hd : RoundDom h) : NoEmptyName h.ranges.toList :=
+theorem RoundDom.good {cfg : Cfg} {h : HL} (hd : RoundDom cfg h) : GoodRecords h :=
+  fun r hr => (hd.recs r hr).good
+theorem RoundDom.noEmpty {cfg : Cfg} {h : HL} (hd : RoundDom cfg h) : NoEmptyName h.ranges.toList :=
   fun r hr => (hd.recs r hr).nonempty
-theorem RoundDom.noMeta {h : HL} (hd : RoundDom h) : PrintSpec.NoMeta h :=
+theorem RoundDom.noMeta {cfg : Cfg} {h : HL} (hd : RoundDom cfg h) : PrintSpec.NoMeta h :=
   fun r hr => ⟨(hd.recs r hr).chars, (hd.recs r hr).nonempty⟩
 
+/-- with D18 and D23 repaired (the code /repo carries now) the domain has NO limit on name lengths:
+    well-formed records, `NoMeta`, and the parser's two size limits -/
+theorem RoundDom.of_repaired {cfg : Cfg} (h18 : cfg.fixCurTok = true) (h23 : cfg.fixHostBuf = true) {h : HL}
+    (hg : GoodRecords h) (hm : PrintSpec.NoMeta h)
+    (hsz : ∀ r ∈ h.ranges.toList, r.single = false → r.hi - r.lo < Spec.RANGE_LIMIT)
+    (hgs : ∀ g ∈ PrintSpec.groups h.ranges.toList, g.length ≤ Spec.RANGES_LIMIT) : RoundDom cfg h :=
+  ⟨fun r hr => ⟨hg r hr, (hm r hr).1, (hm r hr).2, Or.inl ⟨h18, h23⟩, hsz r hr⟩, hgs⟩
+
 /-- COMPRESSED FORM.  Whenever `hostlist_ranged_string` reports a length, the caller's buffer holds
-    the specification's compressed text, and `hostlist_create` (parser model of C01) applied to that
-    text succeeds with a list that denotes exactly the hosts of the printed list, in order, repeats
-    kept -/
-theorem ranged_roundtrip (h : HL) (hd : RoundDom h) (hz : NoNul h.ranges.toList) (n : Nat) (hn : 1 ≤ n)
-    (k : Nat) (hk : (rangedString n h).2 = .ok k) :
+    the specification's compressed text, and `hostlist_create` (parser model of C01, ANY variant `cfg`
+    of it) applied to that text succeeds with a list that denotes exactly the hosts of the printed
+    list, in order, repeats kept -/
+theorem ranged_roundtrip (cfg : Cfg) (h : HL) (hd : RoundDom cfg h) (hz : NoNul h.ranges.toList) (n : Nat)
+    (hn : 1 ≤ n) (k : Nat) (hk : (rangedString n h).2 = .ok k) :
     (rangedString n h).1.text n = some (PrintSpec.rangedText h) ∧
-    ∃ h', create (PrintSpec.rangedText h) = .ok h' ∧ h'.Good ∧ h'.hosts = h.hosts := by
+    ∃ h', create cfg (PrintSpec.rangedText h) = .ok h' ∧ h'.Good ∧ h'.hosts = h.hosts := by
   constructor
   · obtain ⟨_, s, hs, hfit, hcut⟩ := ranged_verdict h hd.good hd.noEmpty hz n hn
     by_cases hf : PrintSpec.Fits (PrintSpec.rangedText h) n
@@ -207,13 +222,13 @@ theorem ranged_roundtrip (h : HL) (hd : RoundDom h) (hz : NoNul h.ranges.toList)
     · have := (hcut hf).1
       simp only [obsOf, hk] at this
       exact absurd this (by simp)
-  · exact ranged_roundtrip_L h.ranges.toList hd.recs hd.groups
+  · exact ranged_roundtrip_L cfg h.ranges.toList hd.recs hd.groups
 
 /-- EXPANDED FORM, repaired truncation test: the same for `hostlist_deranged_string` -/
-theorem deranged_roundtrip (h : HL) (hd : RoundDom h) (hz : NoNul h.ranges.toList) (n : Nat) (hn : 1 ≤ n)
-    (k : Nat) (hk : (derangedString true n h).2 = .ok k) :
+theorem deranged_roundtrip (cfg : Cfg) (h : HL) (hd : RoundDom cfg h) (hz : NoNul h.ranges.toList) (n : Nat)
+    (hn : 1 ≤ n) (k : Nat) (hk : (derangedString true n h).2 = .ok k) :
     (derangedString true n h).1.text n = some (PrintSpec.derangedText h) ∧
-    ∃ h', create (PrintSpec.derangedText h) = .ok h' ∧ h'.Good ∧ h'.hosts = h.hosts := by
+    ∃ h', create cfg (PrintSpec.derangedText h) = .ok h' ∧ h'.Good ∧ h'.hosts = h.hosts := by
   constructor
   · obtain ⟨_, s, hs, hfit, hcut⟩ := deranged_verdict h hd.good hz n hn
     by_cases hf : PrintSpec.Fits (PrintSpec.derangedText h) n
@@ -221,28 +236,30 @@ theorem deranged_roundtrip (h : HL) (hd : RoundDom h) (hz : NoNul h.ranges.toLis
     · have := (hcut hf).1
       simp only [obsOf, hk] at this
       exact absurd this (by simp)
-  · exact deranged_roundtrip_L h.ranges.toList hd.good hd.noMeta (fun r hr => (hd.recs r hr).fits)
+  · exact deranged_roundtrip_L cfg h.ranges.toList hd.good hd.noMeta (fun r hr => (hd.recs r hr).fits)
 
 /-
   FULL STATEMENT of the round trip without `NoMeta` is FALSE (F14-META): the first-level names of a
   two-bracket word are single hosts whose names hold brackets.
 -/
 /-- the hosts `hostlist_create` (parser model) reads from a text -/
-def parsedHosts (s : Str) : Option (List String) :=
-  match create s with
+def parsedHosts (cfg : Cfg) (s : Str) : Option (List String) :=
+  match create cfg s with
   | .ok h' => some (h'.hosts.map String.ofList)
   | _ => none
 
 /-- what `hostlist_create("foo[1-2]-[0-1]")` holds -/
 def metaList : HL := ⟨#[HRange.mkSingle "foo1-[0-1]".toList, HRange.mkSingle "foo2-[0-1]".toList], 2⟩
 
-/-- F14-META witness: both forms print `foo1-[0-1],foo2-[0-1]`, which reads back as FOUR hosts -/
+/-- F14-META witness: both forms print `foo1-[0-1],foo2-[0-1]`, which reads back as FOUR hosts
+    (unchanged and repaired parser alike) -/
 theorem roundtrip_meta_false :
     GoodRecords metaList ∧
     PrintSpec.rangedText metaList = "foo1-[0-1],foo2-[0-1]".toList ∧
     PrintSpec.derangedText metaList = "foo1-[0-1],foo2-[0-1]".toList ∧
     (rangedString 64 metaList).2 = .ok 21 ∧
-    parsedHosts "foo1-[0-1],foo2-[0-1]".toList = some ["foo1-0", "foo1-1", "foo2-0", "foo2-1"] := by
+    parsedHosts Cfg.repaired "foo1-[0-1],foo2-[0-1]".toList = some ["foo1-0", "foo1-1", "foo2-0", "foo2-1"] ∧
+    parsedHosts Cfg.unchanged "foo1-[0-1],foo2-[0-1]".toList = some ["foo1-0", "foo1-1", "foo2-0", "foo2-1"] := by
   decide
 
 /-- F14-BIGRANGE witness: tail coalescing builds a range record of 20000 hosts; its compressed text
@@ -251,7 +268,8 @@ theorem roundtrip_bigrange_false :
     GoodRecords ⟨#[HRange.mk' ['a'] 1 20000 1], 20000⟩ ∧
     (rangedString 11 ⟨#[HRange.mk' ['a'] 1 20000 1], 20000⟩).2 = .ok 10 ∧
     PrintSpec.rangedText ⟨#[HRange.mk' ['a'] 1 20000 1], 20000⟩ = "a[1-20000]".toList ∧
-    create "a[1-20000]".toList = .null ERANGE .tooMany := by
+    create Cfg.repaired "a[1-20000]".toList = .null ERANGE .tooMany ∧
+    create Cfg.unchanged "a[1-20000]".toList = .null ERANGE .tooMany := by
   decide
 
 /-! ### the two fixed callers in opt.c -/
@@ -263,28 +281,41 @@ theorem optList_ranged_in_bounds (fixed : Bool) (h : HL) :
   simp only [Bool.false_eq_true, ↓reduceIte]
   split <;> rename_i b _ he <;> (rw [he] at this; exact this)
 
-/-- `list_push_hostlist`: its retry loop never ends (F14-XLOOP) exactly when the excluded list's
-    compressed text needs 4095 bytes or more; otherwise nothing is stored outside the 4095 bytes
-    announced -/
+/-- `list_push_hostlist`, UNCHANGED retry condition `(n*=2 < 0x7fffff)` (D2 / F14-XLOOP): the loop
+    never ends exactly when the excluded list's compressed text needs 4095 bytes or more -/
 theorem listPushHostlist_diverges_iff (h : HL) (hg : GoodRecords h) (hne : NoEmptyName h.ranges.toList)
     (hz : NoNul h.ranges.toList) :
-    (listPushHostlist h).2 = none ↔ (PrintSpec.rangedText h).length ≥ XLIST_BUF - 1 := by
-  have ht := ranged_truncation_iff h hg hne (XLIST_BUF - 1) (by decide)
-  obtain ⟨_, s, hs, _⟩ := ranged_verdict h hg hne hz (XLIST_BUF - 1) (by decide)
-  simp only [obsOf] at hs
-  unfold listPushHostlist
-  split
-  · rename_i b he
-    rw [he] at ht
-    simp only [true_iff] at ht
-    simp [ht]
-  · rename_i b k he
-    rw [he] at ht hs
-    have : ¬ (PrintSpec.rangedText h).length ≥ XLIST_BUF - 1 := fun hc => absurd (ht.mpr hc) (by simp)
-    simp only [this, iff_false]
-    simp only at hs
-    rw [hs]
-    simp
+    (listPushHostlist false h).2 = none ↔ (PrintSpec.rangedText h).length ≥ XLIST_BUF - 1 := by
+  obtain ⟨r1, r2⟩ := ranged_read h hg hne hz (XLIST_BUF - 1) (by decide)
+  simp only [listPushHostlist, Bool.false_eq_true, ↓reduceIte]
+  by_cases hf : (PrintSpec.rangedText h).length < XLIST_BUF - 1
+  · obtain ⟨e1, e2⟩ := r1 hf
+    rw [show rangedString (XLIST_BUF - 1) h =
+      ((rangedString (XLIST_BUF - 1) h).1, .ok (PrintSpec.rangedText h).length) from by rw [← e1]]
+    simp only [e2]
+    constructor
+    · intro hc; exact absurd hc (by simp)
+    · intro hc; omega
+  · obtain ⟨e1, _⟩ := r2 (by omega)
+    rw [show rangedString (XLIST_BUF - 1) h = ((rangedString (XLIST_BUF - 1) h).1, .trunc) from by rw [← e1]]
+    simp only [true_iff]
+    omega
+
+/-- `list_push_hostlist`, REPAIRED retry condition `((n *= 2) < 0x7fffff)`: the loop always ends
+    with a string in the buffer ... -/
+theorem listPushHostlist_repaired_terminates (h : HL) (hg : GoodRecords h)
+    (hne : NoEmptyName h.ranges.toList) (hz : NoNul h.ranges.toList) :
+    ∃ s, (listPushHostlist true h).2 = some s := by
+  simp only [listPushHostlist, ↓reduceIte]
+  exact listPushLoop_total h hg hne hz 12 XLIST_BUF (by decide)
+
+/-- ... and that string is the WHOLE compressed text of the excluded list, whatever its length below
+    4 MiB − 1 (beyond that the ceiling `0x7fffff` stops the doubling and a truncated text is pushed) -/
+theorem listPushHostlist_repaired_text (h : HL) (hg : GoodRecords h) (hne : NoEmptyName h.ranges.toList)
+    (hz : NoNul h.ranges.toList) (hlen : (PrintSpec.rangedText h).length + 1 < 2 ^ 22) :
+    (listPushHostlist true h).2 = some (PrintSpec.rangedText h) := by
+  simp only [listPushHostlist, ↓reduceIte]
+  exact listPushLoop_text h hg hne hz hlen 12 XLIST_BUF (by decide) (by decide)
 
 end PdshVerif.C14
 
@@ -296,11 +327,14 @@ open PdshVerif.Hostlist PdshVerif.Hostlist.Print PdshVerif.C14
 def exampleList : HL :=
   ⟨#[HRange.mk' ['a'] 1 3 1, HRange.mk' ['a'] 7 9 2, HRange.mk' ['b'] 5 5 1, HRange.mkSingle "login".toList], 8⟩
 
-example : RoundDom exampleList := by
+example : RoundDom Cfg.unchanged exampleList := by
   refine ⟨?_, by decide⟩
   intro r hr
   simp only [exampleList, List.mem_cons, List.not_mem_nil, or_false] at hr
   rcases hr with rfl | rfl | rfl | rfl <;> exact ⟨by decide, by decide, by decide, by decide, by decide⟩
+
+example : RoundDom Cfg.repaired exampleList :=
+  RoundDom.of_repaired rfl rfl (by decide) (by decide) (by decide) (by decide)
 
 example : NoNul exampleList.ranges.toList := by
   intro r hr
